@@ -42,7 +42,9 @@ ENG_TIE = ("Tied to /repo by the shared engine-family correspondence: seeded ran
            "instances, deep copies mid-history, exceptions deriving from BaseException / StopIteration / "
            "TransitionNotAllowed, return values that are exception objects or equal to everything, callbacks "
            "handing back awaitables that are no coroutine objects, class-object and proxy listeners, callback "
-           "names that are state ids, a model recording every write of its state field, and fixed probe "
+           "names that are state ids, a model recording every write of its state field, callbacks that assign the state "
+           "themselves through current_state_value (C01-C04), constructor options passed positionally, options changed "
+           "after construction, a base class used before its subclass exists, and fixed probe "
            "families (DESIGN.md 4). ")
 
 CLAIMED.update({
@@ -52,7 +54,9 @@ CLAIMED.update({
         "whose activation executes fires with its result; a raising validator or callback aborts the event before "
         "later candidates; if none qualifies TransitionNotAllowed(event, state) or nothing (allow flag); these cases "
         "are exhaustive; under run-to-completion rejected candidates leave state/lock untouched and the stored "
-        "state afterwards is the fired target or unchanged; the faithful re-entrant entry point equals the "
+        "state afterwards is the fired target or unchanged (for callbacks that do not assign the state themselves "
+        "through the low-level API; local form: only the callbacks the candidates can run need that, Proofs/"
+        "WritesLocal.v); the faithful re-entrant entry point equals the "
         "documented engine. For all machines, callback behaviours, triggers, configurations. " + ENG_TIE +
         "Compared: state after each operation, exception class and TransitionNotAllowed payload, allowed_events.",
         "Coq proof (candidate-loop characterisation, frame lemmas, engine refinement) + differential correspondence",
@@ -64,7 +68,9 @@ CLAIMED.update({
         "state=target; the stored state is untouched until the assignment and is the target after it (RTC, callbacks "
         "that do not assign the state themselves: no_writes); for callbacks that do (the low-level API, AWrite in the "
         "model) the engine's assignment after `on` is unconditional - the second half starts from the target whatever "
-        "was stored, internal transitions included; a "
+        "was stored, internal transitions included, and if the enter / after callbacks of the transition do not write, "
+        "each of them sees the target and the transition ends in it whatever earlier callbacks stored (local "
+        "hypotheses, Proofs/WritesLocal.v); a "
         "rejected candidate runs validators and conditions only; event-named callbacks are admitted iff the trigger "
         "is their event; every admitted callback of a group is called exactly once and every call of the group is "
         "an admitted callback; every callback of the first five groups reads the source as current state and every "
@@ -266,13 +272,14 @@ CLAIMED["C12"] = (
     "`unless` name provided by the model and a constructor listener (known finding D25, also as a refuted "
     "theorem: providers of one resolution round are and-ed before the expected value is applied).",
     "Coq proof (provider parity, guard over all providers, attach-idempotence) + differential correspondence + isolation pairs",
-    "DESIGN.md 5 C12", "Multi-name boolean expressions whose names live on different resolution rounds (D19) are not generated.  Known findings D11, D25.")
+    "DESIGN.md 5 C12", "Multi-name boolean expressions whose names live on different resolution rounds (D19) are not generated.  Known findings D11, D25 (constructor round only; the clone half was repaired, D30).")
 
 CLAIMED["C17"] = (
     "Theorems (Properties/C17.v): a clone taken at any idle point of a machine that has a state is the "
     "original's configuration (state, call history, empty queue, free lock), rtc on or off; a machine with async "
     "callbacks cloned before its activation keeps exactly one pending __initial__ trigger; the clone's registry "
-    "is the original's; hence after any history the clone answers every suffix of operations exactly as the "
+    "is the original's whatever its resolution rounds (a copy attaches its listeners in the groups its original "
+    "attached them in); hence after any history the clone answers every suffix of operations exactly as the "
     "original; original and clone being two objects of the process, driving one never changes what the other "
     "does.  " + ENG_TIE + "Here a history is run, the machine is cloned with copy.deepcopy or a pickle round "
     "trip - also copies of copies mixing both mechanisms - at a random point (also before any event, i.e. before "
@@ -285,9 +292,11 @@ CLAIMED["C17"] = (
     "Coq proof (clone = same configuration and registry, suffix equivalence) + differential correspondence with alternating suffixes",
     "DESIGN.md 5 C17",
     "Partial: physical non-sharing of Python objects is checked (identity tests, diverging suffixes), not "
-    "proved.  Three genuine defects repaired (fix: b431cc9, fix: b1b38e6, fix: 20edca7 equal / unhashable listeners "
-    "lost by the copy); known finding D25 (a clone regroups `unless` providers of different resolution rounds: the "
-    "suffix-equivalence theorem holds for machines resolved in one round, and is refuted by a witness otherwise).")
+    "proved.  Genuine defects repaired: fix: b431cc9, fix: b1b38e6, fix: 20edca7 (equal / unhashable listeners lost by "
+    "the copy), and three regressions of those repairs found in the last session: fix: 89e640d (a copy started its "
+    "engine over a half-built model), fix: b2df5de (snapshot while another thread sends), fix: 14baa4a (a copy "
+    "regrouped late listeners - the C17 half of D25; the suffix-equivalence theorem lost its one-round hypothesis). "
+    "Probes: a model that holds its own machine copied from the model; a machine whose stored state was reset to None.")
 
 CLAIMED["C16"] = (
     "Theorems (Properties/C16.v): in a process of several machine objects (instances of one or of different "
@@ -320,7 +329,9 @@ CLAIMED["C06"] = (
     "what is queued is exactly what was put in put order (global FIFO), nothing is begun twice, and once all "
     "senders have returned everything put has been processed; with callbacks that FAIL while other threads send "
     "(the drainer clears the queue, releases, looks at the queue once more, re-raises): once all senders have "
-    "returned the queue is empty and the lock free, for every failing set, plan and schedule - and refuted by a "
+    "returned the queue is empty and the lock free, and per sender what was begun is a subsequence of its plan in "
+    "its order with nothing begun twice (events may be dropped by a failure, never invented or reordered), for "
+    "every failing set, plan and schedule - nothing-stranded refuted by a "
     "schedule for the engine without that second look (D26, repaired).  Tied to "
     "/repo by a deterministic scheduler built on sys.settrace that parks every sender thread before every source "
     "line of engines/*.py and event.py and runs one line of one thread at a time following a schedule: every "
